@@ -27,7 +27,8 @@ Inductive where_ :=
 | WClassDef            (* between DeclareClass and DefineClass, top level *)
 | WClassDefNested      (* the same inside a call *)
 | WCapture             (* a closure over a local of the failing frame was stored in global c *)
-| WBuiltin.            (* built-in error (nil.foo) inside try/finally *)
+| WBuiltin             (* built-in error (nil.foo) inside try/finally *)
+| WCaptureFiber.       (* like WCapture, but the error is raised in a fiber CALLED by the capturing frame *)
 
 Inductive snip :=
 | SnVar (g : nat) (z : Z)
@@ -85,6 +86,7 @@ Definition render_where (w : where_) : string :=
   | WClassDefNested => "(|| { #[derive(print)] class D {} })();"
   | WCapture => "var c = nil; (|| { var x = 41; c = || x; throw 1; })();"
   | WBuiltin => "try { nil.foo; } finally { print(""nf""); }"
+  | WCaptureFiber => "var c = nil; (|| { var x = 41; c = || x; Fiber.new(|| { throw 1; }).call(); })();"
   end.
 
 Definition render (s : snip) : string :=
@@ -130,7 +132,7 @@ Definition where_of_N (n : N) : where_ :=
   match n with
   | 0%N => WTop | 1%N => WNested D1 | 2%N => WNested D2 | 3%N => WNested D3 | 4%N => WFiber | 5%N => WTryFinally
   | 6%N => WCatch | 7%N => WFinally | 8%N => WFinallyRet | 9%N => WClassDef | 10%N => WClassDefNested
-  | 11%N => WCapture | _ => WBuiltin
+  | 11%N => WCapture | 12%N => WBuiltin | _ => WCaptureFiber
   end.
 Definition z_of_wire (n : N) : Z := (Z.of_N n - 100)%Z.
 
